@@ -3,6 +3,7 @@ import Martian.DeterminismAccum
 import Martian.DeterminismAccum2
 import Martian.ForkOrder
 import Proofs.ForkOrderBij
+import Proofs.ForkOrderOn
 import Driver.Util
 
 /-! Line-protocol handler for property C10.
@@ -206,8 +207,10 @@ def handle (op : String) (args : List String) : Option String :=
     let tbl ← foTable tbl
     let res := Martian.ForkOrder.forkOrder roots (foInner tbl)
     let all := Martian.ForkOrder.allForks (foInner tbl) 0 [] roots
-    pure (boolStr (res.length == all.length && res.all (fun f => all.contains f)
-      && all.all (fun f => res.contains f)))
+    -- first the HYPOTHESIS of forks_bijection_where_known evaluated on this table, then the conclusion
+    pure (boolStr (Martian.ForkOrder.knownWhereNeeded roots (foInner tbl)) ++ " " ++
+      boolStr (res.length == all.length && res.all (fun f => all.contains f)
+        && all.all (fun f => res.contains f) && res.eraseDups.length == res.length))
   | "firstfail", [es] => do
     let es ← entries es
     let l ← es.mapM fun f => match f with
